@@ -93,7 +93,7 @@ def run(tier, wd):
                      "arguments declared first, or interleaved) x one command line (random sentence of `[OPTIONS] ARG...`, shuffled, perturbed, with a marker) x optionally "
                      "an environment-backed argument or option; members: the command without spec string and the same command with the explicit spec of the statement. "
                      "Outcomes must be equal, both must agree with RefSemantics on Seq(Optional(Group(all)), Arg...), and the usage line printed on rejection must "
-                     "show that spec; non-trivial = the reference accepts")
+                     "show that spec; non-trivial = the reference accepts", check_oracle=True, usage_expect=usage_expect)
     rep.cov["programs"] = len(progs)
     rep.cov["usage_lines_checked"] = usage_checked
     rep.assumptions += ["all variables use the recording value type"]
